@@ -514,21 +514,28 @@ def uniform_filter1d(x, size, axis=-1, output=None, mode="reflect", cval=0.0, or
     size = int(size)
     if size < 1:
         raise RuntimeError("incorrect filter size")
-    if size == 1:
-        return SymArray(list(x.d), x.dtype_tag)
-
     def at(i):          # reflect: d c b a | a b c d | d c b a
         while i < 0 or i >= n:
             i = -i - 1 if i < 0 else 2 * n - 1 - i
         return x.d[i]
     left = size // 2
     out = []
+    poisoned = False       # scipy keeps a running sum: from the first window that contains a NaN every later output is NaN
     for j in range(n):
+        win = [at(j - left + k) for k in range(size)]
+        if poisoned or any(getattr(v, "__sx_nan__", False) for v in win):
+            poisoned = True
+            from .pd_shim import NA
+            out.append(NA)
+            continue
+        if size == 1:
+            out.append(win[0])
+            continue
         acc = Q(0)
-        for k in range(size):
-            acc = acc + at(j - left + k)
+        for v in win:
+            acc = acc + v
         out.append(acc / size)
-    return SymArray(out, "f8")
+    return SymArray(out, x.dtype_tag if size == 1 else "f8")
 
 
 class _NDImage:
@@ -693,6 +700,21 @@ def selftest(job, seed=0):
             job.validate(label, float(run(sym)), float(want), inputs={"y": ys})
         got = run(lambda: npx.atleast_1d(Q(repr(ys[0]))).squeeze())
         job.validate("np.atleast_1d(scalar).squeeze()", float(got), float(np.atleast_1d(ys[0]).squeeze()))
+    from scipy.ndimage import uniform_filter1d as real_u
+    for w in (1, 2, 3):
+        for kpos in (None, 0, 2, 4):
+            vals = [float(v) for v in range(1, 7)]
+            arr = np.array(vals)
+            sym = [Q(v) for v in range(1, 7)]
+            if kpos is not None:
+                from .pd_shim import NA
+                arr[kpos] = np.nan
+                sym[kpos] = NA
+            got = run(lambda: uniform_filter1d(SymArray(list(sym)), size=w))
+            want = real_u(arr, size=w)
+            same = all((getattr(a, "__sx_nan__", False) and np.isnan(b)) or (not getattr(a, "__sx_nan__", False) and not np.isnan(b) and abs(float(a) - b) < 1e-12)
+                       for a, b in zip(got.d, want))
+            job.validate(f"uniform_filter1d(size={w}, NaN at {kpos})", float(same), 1.0)
     _selftest_pandas_and_ints(job, r, run, npx)
 
 
